@@ -677,12 +677,11 @@ Proof. split; [split; intros nc; reflexivity|]. vm_compute. repeat split; reflex
 (* one loaded document, no --except, no --values: fed with the search model's hits (adapter
    CliLibSpec.results_of), the glue's per-document step prints exactly the lines PathsPrint's model of
    process_yaml_file + print_results computes, in the same order, and its state is 1 exactly when an
-   expression was rejected.  Guards: every hit has a printable path (its text parses - C07), and the
-   file name is not a padded "-" (PathsPrint compares the name with "-" without stripping it) *)
+   expression was rejected.  Guard: every hit has a printable path (its text parses - C07).  (Both
+   models name the file STDIN exactly when yaml_file.strip() == "-".) *)
 Theorem C16_paths_end_to_end :
   forall lit re_search value_text mt sp o d a fl exprs file idx lines bad,
     same_print_options a fl sp exprs ->
-    is_dash file = String.eqb file "-" ->
     hits_printable lit re_search mt sp o exprs d ->
     PathsPrint.process_doc lit re_search value_text mt sp o d fl exprs file (Z.of_nat idx) = Ok (lines, bad) ->
     exists nh,
@@ -704,10 +703,9 @@ Example C16_paths_end_to_end_example :
 Proof. vm_compute. split; reflexivity. Qed.
 Example C16_paths_end_to_end_example_hyps :
   same_print_options (e2e_pargs e2e_exprs) e2e_flags Dot e2e_exprs /\
-  is_dash "f.yaml" = String.eqb "f.yaml" "-" /\
   hits_printable e2e_lit e2e_re [] Dot e2e_opts e2e_exprs e2e_doc.
 Proof.
-  split; [repeat split|]. split; [reflexivity|].
+  split; [repeat split|].
   intros e tm hs h I G S H.
   destruct I as [<-|[<-|[<-|[]]]]; vm_compute in G; inversion G; subst tm; vm_compute in S; inversion S; subst hs;
     simpl in H; repeat (destruct H as [<-|H]; [eexists; vm_compute; reflexivity|]); destruct H.
